@@ -94,6 +94,7 @@ M("C04-R3-sha256-512", "C04", [(S, "Variant::from_string(&crate::util::get_sha25
 M("C04-R3-isbook-doc", "C04", [(S, "                .is_book\n                .as_ref()\n                .unwrap_or(self.default_config.is_book.as_ref().unwrap()),", "                .is_book\n                .as_ref()\n                .unwrap_or(self.default_config.is_doc.as_ref().unwrap()),")], ["extension-class_is_book"])
 M("C04-R3-groupexec-pred", "C04", [(S, "&mode::mode_group_exec,", "&mode::mode_group_write,")], ["accessor_GroupExec"])
 M("C04-R3-inode-nlink", "C04", [(S, "return Variant::from_int(attrs.nlink() as i64);", "return Variant::from_int(attrs.ino() as i64);")], ["accessor_Hardlinks"])
+M("C04-R3-sha256-uses-sha224", "C04", [(U, "let mut hasher = sha2::Sha256::new();", "let mut hasher = sha2::Sha224::new();")], ["digest_get_sha256"])
 M("C04-R3-sha1-uses-sha256", "C04", [(U, "let mut hasher = sha1::Sha1::new();", "let mut hasher = sha2::Sha256::new();")], ["digest_get_sha1"])
 M("C04-R4-clear-misses-linecount", "C04", [(S, "        self.line_count_set = false;\n        self.line_count = None;\n\n        self.dimensions_set = false;\n        self.dimensions = None;\n\n        self.duration_set = false;\n        self.duration = None;\n\n        self.mp3_metadata_set = false;\n        self.mp3_metadata = None;\n\n        self.exif_metadata_set = false;\n        self.exif_metadata = None;\n    }\n\n    fn update_file_metadata",
                                                "        self.line_count = None;\n\n        self.dimensions_set = false;\n        self.dimensions = None;\n\n        self.duration_set = false;\n        self.duration = None;\n\n        self.mp3_metadata_set = false;\n        self.mp3_metadata = None;\n\n        self.exif_metadata_set = false;\n        self.exif_metadata = None;\n    }\n\n    fn update_file_metadata")], ["memo_clear_line_count_set"])
